@@ -169,7 +169,7 @@ fn judge_point(t: &Table, by_code: &BTreeMap<u32, &Row>, by_sym: &BTreeMap<&str,
 
 pub fn run(ctx: &Ctx) {
     run_wire_tags(ctx);
-    ctx.set_rule("complete enumeration: every 16-bit status code and operation id, every tag byte, and the small enums over -1..255 (thorough: +-2^20) are decoded and compared with registry tables embedded in the harness; each row also checks variant-as-code; every registered delimiter and value tag is additionally fed to both parsers inside a well-formed message and must be recognised as what the registry says. Non-trivial = a registered code or a code adjacent to one; distinct by (table, code).");
+    ctx.set_rule("complete enumeration: every 16-bit status code and operation id, every tag byte, and the small enums over -1..255 (thorough: +-2^20) are decoded and compared with registry tables embedded in the harness; each row also checks variant-as-code; every registered delimiter and value tag is additionally fed to both parsers inside a well-formed message and must be recognised as what the registry says; and every value-tag byte 0x10-0xff, assigned or not, is placed three times in a row after values of four different known syntaxes (932 probes) and must be read as that tag every time (an unassigned tag as raw octets carrying the tag). Non-trivial = a registered code or a code adjacent to one; distinct by (table, code).");
     ctx.set_exhaustive(true);
     for t in tables(ctx.tier == Tier::Thorough) {
         let by_code: BTreeMap<u32, &Row> = t.rows.iter().map(|r| (r.reg, r)).collect();
@@ -236,7 +236,82 @@ fn judge_wire_tag(kind: &str, tag: u8) -> Judge {
     Ok(())
 }
 
+fn probe_body(tag: u8) -> Vec<u8> {
+    match tag {
+        0x21 | 0x23 => vec![0, 0, 0, 5],
+        0x22 => vec![1],
+        0x31 => vec![7, 0xe4, 1, 2, 3, 4, 5, 6, b'+', 1, 0],
+        0x32 => vec![0, 0, 2, 88, 0, 0, 2, 88, 3],
+        0x33 => vec![0, 0, 0, 1, 0, 0, 0, 9],
+        0x35 | 0x36 => vec![0, 2, b'e', b'n', 0, 1, b'x'],
+        t if (0x10..=0x1f).contains(&t) => vec![],
+        _ => b"abc".to_vec(),
+    }
+}
+
+/// Every value-tag byte, assigned or not, in a run: after a value of a known syntax, the same tag
+/// three times in a row (two values of one attribute, then the next attribute), then `after` - each
+/// occurrence must be read as that tag (an unassigned tag as raw octets carrying the tag).
+fn judge_tag_run(tag: u8, before: u8, after: u8) -> Judge {
+    use vcore::drive::{parse_async, parse_blocking, Outcome};
+    use vcore::refcodec::*;
+    let v = |t: u8| WVal::Scalar { tag: t, body: probe_body(t) };
+    let w = WMsg {
+        version: 0x0101,
+        code: 0,
+        request_id: 1,
+        groups: vec![WGroup {
+            tag: 1,
+            attrs: vec![WAttr { name: b"k".to_vec(), values: vec![v(before)] }, WAttr { name: b"a".to_vec(), values: vec![v(tag), v(tag)] }, WAttr { name: b"b".to_vec(), values: vec![v(tag)] }, WAttr { name: b"n".to_vec(), values: vec![v(after), v(tag)] }],
+        }],
+        payload: vec![],
+    };
+    let bytes = ref_encode(&w);
+    // tags above 0x4a are outside the harness's own reading of RFC 8010 (reserved / extension ranges):
+    // for those only the relation "the same (tag, body) reads the same every time" is asserted
+    let expected = vcore::canon::interpret(&w);
+    for (which, out) in [("blocking", parse_blocking(&bytes)), ("async", parse_async(&bytes, vcore::sched::Schedule::whole()))] {
+        match out {
+            Outcome::Ok { canon, .. } => {
+                if let Some(e) = &expected {
+                    vcore::canon::canon_match(e, &canon).map_err(|e| Fail::new("C16/value-tag/misread-in-a-run", format!("{which} parser, value tag {tag:#04x} repeated after a value with tag {before:#04x}: {e}")))?;
+                }
+                let g = canon.groups.first().map(|g| &g.1);
+                let get = |n: &[u8]| g.and_then(|m| m.get(n)).cloned();
+                let flat = |v: Option<vcore::canon::CValue>| match v {
+                    Some(vcore::canon::CValue::Set(l)) => l,
+                    Some(x) => vec![x],
+                    None => vec![],
+                };
+                let (a, b, n) = (flat(get(b"a")), flat(get(b"b")), flat(get(b"n")));
+                let same = a.len() == 2 && b.len() == 1 && n.len() == 2 && a[0] == a[1] && a[0] == b[0] && a[0] == n[1];
+                if !same {
+                    return Err(Fail::new("C16/value-tag/misread-in-a-run", format!("{which} parser: the same value (tag {tag:#04x}, body {:02x?}) occurring four times in one message after a value with tag {before:#04x} is read differently from occurrence to occurrence: a={a:?} b={b:?} n={n:?}", probe_body(tag))));
+                }
+            }
+            // (tag bytes above 0x4a are outside what RFC 8010 assigns; rejecting them is not asserted)
+            _ if expected.is_none() => {}
+            o => return Err(Fail::new("C16/value-tag/run-rejected", format!("{which} parser rejects a well-formed message in which value tag {tag:#04x} is repeated after a value with tag {before:#04x}: {}", o.short()))),
+        }
+    }
+    Ok(())
+}
+
 pub fn run_wire_tags(ctx: &Ctx) {
+    for tag in 0x10..=0xffu8 {
+        if matches!(tag, 0x34 | 0x37 | 0x4a) {
+            continue;
+        }
+        for (before, after) in [(0x44u8, 0x21u8), (0x21, 0x48), (0x48, 0x22), (0x30, 0x41)] {
+            ctx.eval();
+            ctx.nontrivial(vcore::canon::hash64(&("tag-run", tag, before)));
+            ctx.label("value-tag byte repeated in a run (assigned and unassigned)");
+            if let Err(f) = judge_tag_run(tag, before, after) {
+                ctx.failure("tag-runs", &f, json!({"tag_run": {"tag": tag, "before": before, "after": after}}));
+                break;
+            }
+        }
+    }
     for (kind, rows) in [("delimiter-tag", delimiter_rows()), ("value-tag", value_tag_rows())] {
         for r in rows {
             if kind == "delimiter-tag" && r.reg == 0x03 {
@@ -253,6 +328,10 @@ pub fn run_wire_tags(ctx: &Ctx) {
 }
 
 pub fn replay(_ctx: &Ctx, _sub: &str, case: &Value) -> Judge {
+    if let Some(w) = case.get("tag_run") {
+        let g = |k: &str| w.get(k).and_then(|t| t.as_u64()).unwrap_or(0) as u8;
+        return judge_tag_run(g("tag"), g("before"), g("after"));
+    }
     if let Some(w) = case.get("wire_tag") {
         let kind = if w.get("kind").and_then(|k| k.as_str()) == Some("delimiter-tag") { "delimiter-tag" } else { "value-tag" };
         return judge_wire_tag(kind, w.get("tag").and_then(|t| t.as_u64()).unwrap_or(0) as u8);
